@@ -73,3 +73,7 @@ M("ksolve-backward-first", "subspacemin.py",
 M("ksolve-args-swapped", "subspacemin.py", "        v = sp.linalg.solve_triangular(LK, v, lower=True)\n", "        v = sp.linalg.solve_triangular(v, LK, lower=True)\n", ["KSOLVE"])
 Q("ksolve-trans-form", "subspacemin.py", "        v = sp.linalg.solve_triangular(LK.T, v, lower=False)\n", "        v = sp.linalg.solve_triangular(LK, v, lower=True, trans='T')\n", ["KSOLVE"])
 Q("ksolve-floor-div", "subspacemin.py", "        v[: int(LK.shape[0] / 2)] *= -1\n", "        v[: LK.shape[0] // 2] *= -1\n", ["KSOLVE"])
+
+# ---- INVMFORM (round 4: "robust" floor on the curvatures)
+M("invmform-floor", "bfgsmats.py", "    invD.flat[:: D.shape[0] + 1] = 1 / np.diag(D)\n", "    invD.flat[:: D.shape[0] + 1] = 1 / np.maximum(np.diag(D), 2.2e-16)\n", ["INVMFORM"], canary=True)
+M("invmform-abs", "bfgsmats.py", "    invD.flat[:: D.shape[0] + 1] = 1 / np.diag(D)\n", "    invD.flat[:: D.shape[0] + 1] = 1 / np.abs(np.diag(D))\n", ["INVMFORM"])
